@@ -1,16 +1,16 @@
 CONSTANTS
- MaxLen = 3
- ReadSizes = {1, 2, 6}
+ MaxLen = 2
+ ReadSizes = {1, 5}
  MaxDrops = 1
- MaxFails = 0
+ MaxFails = 1
  MaxSeeks = 1
  MaxAgain = 0
- RetryLimit = 3
- Schemes = {"reg", "ocidir"}
+ RetryLimit = 2
+ Schemes = {"reg"}
  Vias = {"reader"}
  Withs = {TRUE}
- Chunks = {1, 6}
- LyingSizes = TRUE
+ Chunks = {1}
+ LyingSizes = FALSE
  InlineData = FALSE
  Conc = 3
  Probes = FALSE
@@ -19,8 +19,8 @@ CONSTANTS
  TarUnverified = FALSE
  MTs = {TRUE}
  DigestHdrs = {"served"}
- Sts = {"std"}
- DropKinds = {"ueof"}
+ Sts = {"std", "alt"}
+ DropKinds = {"ueof", "reset"}
 INIT Init
 NEXT Next
 VIEW View
